@@ -27,6 +27,7 @@ from . import core
 NWORKERS = int(os.environ.get("VERIF_WORKERS", str(min(16, os.cpu_count() or 1))))
 CASE_TIMEOUT_S = int(os.environ.get("VERIF_CASE_TIMEOUT", "30"))
 MAX_REPORTED = 40
+MAX_CONFIRM_PER_SIG = 6
 
 
 class CaseTimeout(BaseException):
@@ -367,19 +368,28 @@ def finish(prop, level, reports, tier, t0, rule, assumptions=(), extra=None, exh
         if in_tier:
             print(f"KNOWN-FINDING-GONE (informational, may lie outside this tier's bound): space={k[0]} sig={k[1]} case={k[2]}")
     harness_errors = []
+    confirmed_per_sig = Counter()
+    skipped_per_sig = Counter()
     for i, (sp, sig, case, detail) in enumerate(unknown):
         if i >= MAX_REPORTED:
             print(f"... {len(unknown) - MAX_REPORTED} further minimal violators not written out")
             break
+        if confirmed_per_sig[(sp.name, sig)] >= MAX_CONFIRM_PER_SIG:
+            # the signature is established; re-running every further case in a fresh process (30 s each for a hang) adds nothing
+            skipped_per_sig[(sp.name, sig)] += 1
+            continue
         path = write_replay(prop, sp, sig, case, detail, tier)
         ok, msg = _confirm_fresh(prop, path)
         if not ok:
             harness_errors.append(f"violation {sig} on {core.canon(case)[:200]} did not reproduce in a fresh process: {msg}")
             continue
+        confirmed_per_sig[(sp.name, sig)] += 1
         print(f"VIOLATION property={prop} replay={path}")
         print(f"  space={sp.name} sig={sig} case={core.canon(case)[:300]}")
         print("  " + finding_line(prop, sp.name, sig, case)[:600])
         rc = 1
+    for (spn, sig), n in sorted(skipped_per_sig.items()):
+        print(f"... {n} further minimal violators of space={spn} sig={sig} not re-confirmed one by one")
     # vacuity floors
     for rep in reports:
         for tag, floor in (rep.space.floors or {}).items():
